@@ -797,7 +797,14 @@ impl Collection {
             .or_else(|| name.strip_suffix('.').and_then(|name| self.get_host(name)))
             .or_else(|| self.get_default())
             .or_else(|| {
-                let base_host = name.split(':').next();
+                // the host part: a bracketed IPv6 literal, the bare `::1`, or everything before the port
+                let base_host = if name.starts_with('[') {
+                    name.split_inclusive(']').next()
+                } else if name == "::1" {
+                    Some(name)
+                } else {
+                    name.split(':').next()
+                };
                 if base_host == Some("localhost")
                     || base_host == Some("127.0.0.1")
                     || base_host == Some("::1")
